@@ -120,6 +120,10 @@ bool linepart::array::apply(const transform &tr, int dim, span<const double> src
 		// no visible points
 		if (!old.usr || !len) {
 			pt = old;
+			// no data of this dimension for the part: nothing of it is drawn
+			if (!len) {
+				pt.usr = 0;
+			}
 			// remaining part without drawn points
 			if (!pt.usr) {
 				pt._cut = pt._trim = 0;
